@@ -151,9 +151,18 @@ class Categorize(Factory, Container):
         """Attempt to get key ``x``, returning an alternative if it does not exist."""
         return self.bins.get(x, default)
 
+    def _keepContentType(self, out):
+        """An immutable container (from JSON or ed) has no value template.
+
+        Its declared content type and name would be lost in zero/+/* while it has no bins; carry them along."""
+        if self.value is None:
+            out.contentType = self.contentType
+            out.contentName = getattr(self, "contentName", None)
+        return out
+
     @inheritdoc(Container)
     def zero(self):
-        return Categorize(self.quantity, self.value)
+        return self._keepContentType(Categorize(self.quantity, self.value))
 
     @inheritdoc(Container)
     def __add__(self, other):
@@ -168,7 +177,7 @@ class Categorize(Factory, Container):
                     out.bins[k] = self.bins[k].copy()
                 else:
                     out.bins[k] = other.bins[k].copy()
-            return out.specialize()
+            return self._keepContentType(out).specialize()
 
         raise ContainerException(f"cannot add {self.name} and {other.name}")
 
@@ -310,7 +319,7 @@ class Categorize(Factory, Container):
             else:
                 binsName = None
         else:
-            binsName = None
+            binsName = getattr(self, "contentName", None)
 
         if len(self.bins) > 0:
             bins_type = list(self.bins.values())[0].name
@@ -367,7 +376,8 @@ class Categorize(Factory, Container):
             else:
                 raise JsonFormatException(json, "Categorize.bins")
 
-            out = Categorize.ed(entries, contentType, **bins)
+            out = Categorize.ed(entries, contentType, binsAsDict=bins)
+            out.contentName = dataName
             out.quantity.name = nameFromParent if name is None else name
             return out.specialize()
 
